@@ -39,7 +39,7 @@ pub fn families(tier: Tier) -> Vec<Family> {
     // stdout data path: payload size x read chunk x order of write / read / harvest / exit
     v.push(Family {
         name: "out",
-        letters: vec![CO, RO, H, CX],
+        letters: vec![CO, RO, H, CX, CC],
         depth: tier.pick(3, 5),
         max_child_writes: tier.pick(1, 2),
         ..base.clone()
